@@ -285,7 +285,10 @@ func NewHTTPTargeter(src io.Reader, body []byte, hdr http.Header) Targeter {
 		tgt.Body = body
 		tgt.Header = http.Header{}
 		for k, vs := range hdr {
-			tgt.Header[k] = vs
+			// Copy the default values: the target's own values are appended
+			// below and must not end up in hdr's backing array, which is
+			// shared with every other target.
+			tgt.Header[k] = append([]string(nil), vs...)
 		}
 
 		tokens := strings.SplitN(line, " ", 2)
